@@ -255,6 +255,9 @@ def _fp(v):
 
 
 def _state(o):
+    if isinstance(o, _NumpyErrState):
+        import numpy
+        return {(".", k): ("v", "str", v) for k, v in numpy.geterr().items()}
     if isinstance(o, dict):
         return {("{}", repr(k)): _fp(v) for k, v in o.items()}
     if isinstance(o, list):
@@ -270,8 +273,19 @@ def _state(o):
     return st
 
 
+class _NumpyErrState:
+    """numpy's process-wide error mode, looked at like an object with one field per error kind (what pyvc/models/npstate.py models)"""
+
+
+_NPERR = _NumpyErrState()
+
+
 def _frame_snapshot(roots, depth=7):
     snap = {}
+    try:
+        snap[id(_NPERR)] = (_NPERR, _state(_NPERR), "numpy.geterr()")
+    except Exception:
+        pass
     todo = [(r, 0, f"arg{i}") for i, r in enumerate(roots)]
     while todo:
         o, d, path = todo.pop()
